@@ -362,8 +362,17 @@ class C07(Check):
         return body, core.with_timeout(lambda: rig.post(ct, body, accs, cl=len(body), max_memfile=mm_, sched=sched,
                                                        record=False), 10)
 
+    @staticmethod
+    def _in_domain(case):
+        """under chunked framing the read buffer (= max_memfile_size) must hold a chunk-size line with its CRLF:
+        a longer line is refused by design (C05), so smaller buffers are outside the property"""
+        if case.get('chunked') and case['max_memfile'] < 16:
+            return dict(case, max_memfile=16)
+        return case
+
     def _oracle(self, rig, case):
         """None or (key, what)"""
+        case = self._in_domain(case)
         fields = [tuple(f) for f in case['fields']]
         try:
             body, res = self._post(rig, case)
@@ -453,7 +462,7 @@ class C07(Check):
             mm_ = max(1, rng.choice([need, need + 1, max(need, body_len - 1), max(need, body_len), 102400, max(need, 64)]))
             chunked = rng.random() < .5
             if chunked:
-                mm_ = max(mm_, 8)       # a chunk-size line longer than the buffer is refused by design (C05)
+                mm_ = max(mm_, 16)      # a chunk-size line longer than the buffer is refused by design (C05)
             yield dict(boundary=b, quote=fl.needs_quote(b) or rng.random() < .3, fields=fields, max_memfile=mm_,
                        chunked=chunked, sched=core.gen_sched(rng, body_len),
                        sizes=[rng.randint(1, 50) for _ in range(rng.randint(0, 5))])
@@ -494,6 +503,7 @@ class C07(Check):
         cases += list(self._cases(rng, n * 3))
         for c in cases:
             evals += 1
+            c = self._in_domain(c)
             bad = self._oracle(rig, c)
             if bad:
                 c = dict(c, fields=[list(f[:4]) + [f[4].hex()] if f[0] == 'f' else list(f) for f in map(tuple, c['fields'])])
@@ -504,6 +514,7 @@ class C07(Check):
         i = dict(data['input'])
         i['fields'] = [tuple(f[:4]) + (bytes.fromhex(f[4]),) if f[0] == 'f' else tuple(f) for f in i['fields']]
         rig = fl.Rig()
+        i = self._in_domain(i)
         body, res = self._post(rig, i)
         return dict(input=data['input'], content_type=fl.content_type_for(i['boundary'], i['quote']), body=repr(body),
                     status=res['status'], outcomes=res['outs'], expected=expected_views(i['fields']),
